@@ -68,6 +68,10 @@ def sem_fixed():
     fm = Field("fx_extra", Ty("map", "BTreeMap", args=[prim("String"), prim("i32")]), flatten=True)
     fm.tags.append("k:flatten-map")
     add(Item("FxFlatMap", "FxFlatMap", "named", fields=[Field("fx_known", prim("bool")), fm]))
+    # KF: `#[ts(optional)]` without serde's `skip_serializing_if`: `None` is written as `null`, the binding says `fx_o?: number`
+    fo = Field("fx_o", Ty("opt", args=[prim("i32")]), extra_attrs=["#[ts(optional)]"])
+    fo.tags.append("k:optional-without-skip-serializing-if")
+    add(Item("FxOptionalNoSkip", "FxOptionalNoSkip", "named", fields=[Field("fx_req", prim("bool")), fo]))
     # rename_all_fields with a struct variant that has no fields (serde accepts it)
     add(Item("FxRenameAllFieldsEmpty", "FxRenameAllFieldsEmpty", "enum", rename_all_fields="camelCase", variants=[
         Variant("FxEmptyV", "struct", []), Variant("FxFullV", "struct", [Field("fx_x_y", prim("i32"))])]))
